@@ -125,6 +125,8 @@ structure Party where
   answer : Filter := []
   retrieve : Filter := []
   deliver : Filter := []
+  /-- tags for which an r-request was sent and no valid r-answer has arrived yet -/
+  awaited : List Tag := []
   mbar : List (Tag × Int) := []
   dbar : List (Tag × Int) := []
   eD : Counts := []
@@ -390,7 +392,8 @@ def dispatch (H : Int → Int) (T : Tag → Int) (p : Party) (sent0 : Sent) (l :
               | none => 0
               | some mb => H mb
             if foo ≠ db then
-              stop p3 ((List.range (2 * p.t + 1)).map fun i =>
+              stop { p3 with awaited := if p3.awaited.contains tag then p3.awaited else tag :: p3.awaited }
+                ((List.range (2 * p.t + 1)).map fun i =>
                 (i, (⟨msg.id, msg.sender, msg.seq, rRequest, d⟩ : Msg)))
             else
               let r := deliverOrBuffer p3 msg []
@@ -410,14 +413,10 @@ def dispatch (H : Int → Int) (T : Tag → Int) (p : Party) (sent0 : Sent) (l :
       match aGet p1.dbar tag with
       | none => stop p1 []
       | some db =>
-        -- further answers are ignored once the stored payload matches the agreed digest
-        -- (repair of finding F7)
-        let known : Bool := match aGet p1.mbar tag with
-          | some mb => decide (H mb = db)
-          | none => false
-        if known then stop p1 []
+        -- only the first valid answer to an outstanding r-request is processed (repair of finding F7)
+        if !p1.awaited.contains tag then stop p1 []
         else if H msg.payload = db then
-          let p2 := { p1 with mbar := aSet p1.mbar tag msg.payload }
+          let p2 := { p1 with mbar := aSet p1.mbar tag msg.payload, awaited := p1.awaited.erase tag }
           let r := deliverOrBuffer p2 msg []
           { r with sent := sent0 ++ r.sent }
         else stop p1 []
